@@ -25,6 +25,7 @@ def items(tier, seed):
     out = []
     for n in (56, 112):
         out.append(("remainder-%d" % n, {"n": n}))
+        out.append(("legacy-%d" % n, {"n": n}))
         out.append(("encode-%d" % n, {"n": n}))
         out.append(("linear-%d" % n, {"n": n}))
         out.append(("parity-odd-%d" % n, {"n": n}))
@@ -94,6 +95,19 @@ def run_item(item):
         # independent of hex letter case is part of the above (mixed-case frame, single spec)
         # vacuity twin: a frame with non-zero remainder exists
         item.sat_witness("nonzero-remainder", [spec != 0])
+
+    elif kind == "legacy":
+        # the bit-serial reference implementation kept alongside computes the same remainder / parity
+        item.encoded("pyModeS.py_common.crc_legacy")
+        fr = frame(n)
+        item.declare(fr)
+        spec = core.bits_to_int(S.rem_bits(fr.bits))
+        spec_par = core.bits_to_int(S.parity_of_data_bits(fr.bits[:n - 24]))
+        for enc, want in ((False, spec), (True, spec_par)):
+            H.decide(item, "crc_legacy(encode=%s)" % enc, lambda: pm.common.crc_legacy(fr.msg, enc),
+                     lambda c: H.real_call("pyModeS.common.crc_legacy", c["msg"], enc),
+                     lambda m: {"msg": fr.concrete(m)},
+                     lambda k, v: k == "ret" and H.int_eq(v, want))
 
     elif kind == "encode":
         fa = frame(n, "a")
